@@ -7,7 +7,7 @@
     What is proved is enabledness ("some arm is ready, and every own step
     moves forward") plus a bound on the caller's own steps; that an enabled
     goroutine eventually runs is Go's scheduler (DESIGN.md section 11). *)
-From Coq Require Import List NArith Bool String.
+From Coq Require Import List NArith Bool String Arith.
 From Verif Require Import Sni.SchedSkel Sni.Shutdown Sni.ShutdownProofs Sni.ShutdownCfg Sni.ShutdownGen Gen.TransportSkel.
 Import ListNotations.
 Local Open Scope N_scope.
@@ -199,3 +199,31 @@ Example C04_ex_loss_mid_call :
   | None => False
   end.
 Proof. vm_compute. repeat split. eexists. split; reflexivity. Qed.
+
+(** A fair schedule exists: after the loss, closeAll's goroutine is simply
+    scheduled for its four steps (and then for ever, to no effect). *)
+Definition ex_s0 : state :=
+  match exec gen_cfg init [ANew 1 CtxNever false true; AReaderStop; AReadErrS; AFail; ACloseDone] with
+  | Some s => s | None => init end.
+
+Definition ex_sched (n : nat) : action :=
+  match n with
+  | 0%nat => ACheck 1 | 1%nat => AEnq 1 1 | 2%nat => AWait 1 2 | _ => AFront 1
+  end.
+
+Lemma ex_finished_stays k :
+  getc 1 (callers (run_n gen_cfg ex_sched ex_s0 (4 + k))) = Some (mkCaller CtxNever CFront false true).
+Proof.
+  induction k as [|k IH]; [vm_compute; reflexivity|].
+  replace (4 + S k)%nat with (S (4 + k)) by (now rewrite Nat.add_succ_r).
+  cbn [run_n]. unfold step_or_stay.
+  change (ex_sched (4 + k)) with (AFront 1). cbn [step]. rewrite IH. cbn. exact IH.
+Qed.
+
+Example C04_ex_fair_schedule :
+  serve ex_s0 = SDone /\ fair gen_cfg ex_sched ex_s0 1.
+Proof.
+  split; [vm_compute; reflexivity|].
+  intros n. exists (4 + n)%nat. split; [apply Nat.le_add_l|]. left.
+  unfold caller_finished. now rewrite ex_finished_stays.
+Qed.
